@@ -280,7 +280,7 @@ Print Assumptions C13_pow_integer_exponent.
 
 Example C13_pow_nonvacuous :
   pow (15 * 10 ^ 17) (15 * 10 ^ 17) = Ok 1837117307087383574 /\        (* 1.5^1.5 = 1.8371173070873836 *)
-  pow (3 * 10 ^ 17) (3 * 10 ^ 17) = Ok 696845320001282408 /\             (* F4: 0.3^0.3 = 0.696845301935949..., off by 1.8e-8 *)
+  pow (3 * 10 ^ 17) (3 * 10 ^ 17) = Ok 696845320001282408 /\             (* F4 witness: 0.3^0.3 = 0.696845301935949..., off by 1.8e-8 *)
   pow (5 * 10 ^ 17) (- P18) = Ok 0 /\                                   (* F9 witness *)
   pow (2 * P18) P18 = Err EPowBaseGE2 /\ pow 0 P18 = Err EPowBaseLE0 /\
   pow (15 * 10 ^ 17) (3 * P18) = dc_power (15 * 10 ^ 17) 3.
